@@ -201,7 +201,7 @@ Decode(t, m, inp, pos, ctx, consts) ==
                       IF ~d.ok THEN ErrR(IF odd THEN "eof-or-decode" ELSE "decode")   \* which failure is noticed first is open
                       ELSE [OkR([k |-> "str", cps |-> d.cps],
                                 IF odd THEN Len(inp) ELSE pos + 2 * n + (IF t.len.k = "null" THEN 2 ELSE 0))
-                            EXCEPT !.fl = IF odd THEN {"lax"} ELSE {}]
+                            EXCEPT !.fl = IF odd THEN {"lax", "laxeof"} ELSE {}]
          ELSE IF t.len.k = "null" THEN DecodeNull(t.elem, m, inp, pos, ctx, consts, << >>, {})
          ELSE IF t.len.k = "eof" THEN DecodeEof(t.elem, m, inp, pos, ctx, consts, << >>, {})
          ELSE LET n == ArrLen(t.len, ctx, consts) IN
@@ -238,9 +238,9 @@ DecodeN(e, m, inp, pos, ctx, consts, n, acc, fl) ==
 DecodeEof(e, m, inp, pos, ctx, consts, acc, fl) ==
   IF pos >= Len(inp) THEN [OkR([k |-> "list", items |-> acc], pos) EXCEPT !.fl = fl]
   ELSE LET r == Decode(e, m, inp, pos, ctx, consts) IN
-       IF ~r.ok THEN (IF r.err = "eof" THEN [OkR([k |-> "list", items |-> acc], Len(inp)) EXCEPT !.fl = fl \cup {"lax"}]
+       IF ~r.ok THEN (IF r.err = "eof" THEN [OkR([k |-> "list", items |-> acc], Len(inp)) EXCEPT !.fl = fl \cup {"lax", "laxeof"}]
                       \* the partial trailing element is also undecodable: value, EOFError or the decoding error ("laxdecode")
-                      ELSE IF r.err = "eof-or-decode" THEN [OkR([k |-> "list", items |-> acc], Len(inp)) EXCEPT !.fl = fl \cup {"lax", "laxdecode"}]
+                      ELSE IF r.err = "eof-or-decode" THEN [OkR([k |-> "list", items |-> acc], Len(inp)) EXCEPT !.fl = fl \cup {"lax", "laxeof", "laxdecode"}]
                       ELSE ErrR(r.err))
        ELSE IF r.pos = pos THEN ErrR("domain")   \* zero-size elements never reach the end
        ELSE DecodeEof(e, m, inp, r.pos, ctx, consts, Append(acc, r.v), fl \cup r.fl)
